@@ -164,8 +164,61 @@ def gen_hugedelay(rng, size):
     return dict(seed=rng.randint(0, 1000), mod=rng.choice([1, 3, 1 << 20]), entities=ents, pools=[], uops=uops, ext=ext, focus='hugedelay')
 
 
+def gen_rescut(rng, size):
+    """Two or three parallel processors holding units of one pool at the same time; the pool's capacity is cut below what is held (to
+    zero, or to less) while they work and raised again later (C11: usage = what the holders hold, whatever the capacity does)."""
+    k = rng.choice([2, 2, 3])
+    amt = rng.choice([8, 8, 4, 16])
+    ents = [dict(kind='source', cycle=rng.choice([4, 8]), budget=rng.choice([None, 8, 12]), gen_value=8, gen_quality=8, gen_batch=0)]
+    procs = []
+    for i in range(k):
+        ents.append(dict(kind='processor', up=[1], cycle=rng.choice([16, 24, 32]) + 4 * i, req=[[0, amt]]))
+        procs.append(2 + i)
+    ents.append(dict(kind='sink', cycle=0, collect=False, up=list(procs)))
+    cap = k * amt
+    uops, ext = [], [['init']]
+    t1 = rng.choice([12, 14, 16, 20])
+    uops.append([['add_res', 0, -rng.choice([cap, cap, cap - amt // 2, cap + 8])]])
+    ext.append(['at', t1, 0, rng.choice([32, 184])])
+    uops.append([['add_res', 0, rng.choice([amt, cap, cap + amt])]])
+    ext.append(['at', t1 + rng.choice([24, 40, 56]), 1, rng.choice([32, 184])])
+    if rng.random() < 0.4:
+        uops.append([['fail_at', rng.choice(procs), t1 + 4]])
+        ext.append(['at', t1 + 2, len(uops) - 1, 32])
+        uops.append([['restore', uops[-1][0][1]]])
+        ext.append(['at', t1 + 20, len(uops) - 1, 32])
+    ext += [['step']] * rng.randint(40, 80)
+    ext.append(['run', rng.choice([80, 120])])
+    return dict(seed=rng.randint(0, 1000), mod=rng.choice([1, 3, 1 << 20]), entities=ents, pools=[[0, cap]], uops=uops, ext=ext, focus='rescut')
+
+
+def gen_regate(rng, size):
+    """A decision gate in front of a shared machine that re-measures the quality of what it finishes, used by a line that passes the
+    group twice with one part in the system at a time: the gate judges the same part twice, in different states (C08: a gate lets a
+    part through only if its predicate accepts it — at that moment)."""
+    q0 = rng.choice([8, 8, 12])
+    ents = [dict(kind='source', cycle=rng.choice([24, 32, 40]), budget=rng.choice([2, 3, 4]), gen_value=8, gen_quality=q0, gen_batch=0),   # 1
+            dict(kind='gate', decider=rng.choice([[2, 8], [3, 8]]), up=[]),                                                              # 2
+            dict(kind=rng.choice(['processor', 'handler']), cycle=rng.choice([0, 4, 4]), up=[2]),                                         # 3
+            dict(kind='group', gid=1, devices=[2, 3])]                                                                                   # 4, 5
+    if ents[2]['kind'] == 'processor':
+        ents[2]['on_finish'] = [['part_set_quality', rng.choice([0, 4, 16])]]
+    else:
+        ents[2]['on_receive'] = [['part_set_quality', rng.choice([0, 4, 16])]]
+    ents.append(dict(kind='path', gid=1, up=[1]))                                   # 6
+    ents.append(dict(kind='buffer', up=[6], min_delay=rng.choice([0, 4]), capacity=None))   # 7
+    ents.append(dict(kind='path', gid=1, up=[7]))                                   # 8
+    ents.append(dict(kind='sink', cycle=0, collect=True, up=[8]))                   # 9
+    ext = [['init']] + [['step']] * rng.randint(30, 60) + [['run', rng.choice([80, 160])]]
+    return dict(seed=rng.randint(0, 1000), mod=rng.choice([1, 3, 1 << 20]), entities=ents, pools=[], uops=[], ext=ext, focus='regate')
+
+
 def gen(rng, size='small', focus=None):
-    focus = focus or rng.choice(['plain', 'plain', 'faults', 'resources', 'buffers', 'batches', 'groups', 'gates', 'maint', 'rewire', 'mixed', 'parallel', 'late', 'hugedelay'])
+    focus = focus or rng.choice(['plain', 'plain', 'faults', 'resources', 'buffers', 'batches', 'groups', 'gates', 'maint', 'rewire', 'mixed', 'parallel', 'late', 'hugedelay', 'rescut', 'regate'])
+    if focus == 'rescut':
+        return gen_rescut(rng, size)
+    if focus == 'regate':
+        return gen_regate(rng, size)
     if focus == 'hugedelay':
         return gen_hugedelay(rng, size)
     if focus == 'late':
